@@ -6,6 +6,7 @@ import (
 	"fmt"
 	"go/token"
 	"go/types"
+	"regexp"
 	"strings"
 
 	"golang.org/x/tools/go/ssa"
@@ -416,6 +417,9 @@ func formatString(w *World, v ssa.Value, depth int) (string, bool) {
 }
 
 // verbArgs lists, for a printf format, the 1-based argument index every verb consumes (0 for a malformed directive).
+// truncatingVerbRe: a string-like verb with a precision (%.32s, %-10.5v): prints at most that many characters.
+var truncatingVerbRe = regexp.MustCompile(`%[-+# 0-9\[\]]*\.[0-9*]+[svq]`)
+
 func verbArgs(format string) []int {
 	var out []int
 	next := 1
@@ -519,6 +523,9 @@ func rMessageFormats(id string, floor int) func(w *World, r *Report) {
 					if v != i+1 {
 						good = false
 					}
+				}
+				if m := truncatingVerbRe.FindString(format); m != "" {
+					ru.Bad("format/precision/"+short(fn), w.IPos(c), fmt.Sprintf("message format %q prints an argument with %s: a long name or value is cut short, and two that share a beginning become indistinguishable in the diagnostic", format, m))
 				}
 				ru.Check(good, "format/"+short(fn), w.IPos(c), fmt.Sprintf("%q consumes its %d argument(s) once each, in order", format, len(els)), fmt.Sprintf("message format %q does not print its %d argument(s) once each and in order (verbs use arguments %v): part of the diagnostic (e.g. the list of candidates, the offending value) is lost or repeated", format, len(els), verbs))
 			}
